@@ -1,7 +1,8 @@
 /-
   C16 helper lemmas for the stored route: `Path::apply_transform` (an `IdIter` walk writing
   through `points[id]`, `Model/Path/Adapters.lean`) evaluated on exactly the storage a builder
-  program produces (`emitPts` / `emitVerbs` of the C14 lemmas), and `Iter` over the result.
+  program produces (`emitPts` / `emitVerbs` of the C14 lemmas): the result is the storage of the
+  transformed program (`stored_transform`), every index in bounds.
   Mathlib-free.
 -/
 import LyonVerif.Model.Path.Adapters
@@ -17,39 +18,143 @@ set_option linter.unusedVariables false
 set_option linter.unusedSimpArgs false
 
 /-- what the storage holds after `apply_transform`: every position slot written by a
-`begin / line_to / quadratic_bezier_to / cubic_bezier_to` is transformed; the copy of the first
-point that `end(true)` stores (and the attribute slots) are NOT — `IdEvent::End` is skipped by
-`apply_transform`.  (`f`, `fa` = the builder's `first`, `first_attributes`, untransformed.) -/
+`begin / line_to / quadratic_bezier_to / cubic_bezier_to` is transformed, and so is the copy of
+the first point that `end(true)` stores (lyon commit f78412c3; before it that slot kept the
+untransformed point); the attribute slots are untouched.  (`f`, `fa` = the builder's `first`,
+`first_attributes`, untransformed.)  It is the storage of the transformed program:
+`emitPtsT_eq`. -/
 def emitPtsT (g : Pt S → Pt S) : Pt S → List S → Prog S → List (Pt S)
   | _, _, [] => []
   | _, _, .begin p a :: r => endpointPts (g p) a ++ emitPtsT g p a r
   | f, fa, .line p a :: r => endpointPts (g p) a ++ emitPtsT g f fa r
   | f, fa, .quad c p a :: r => g c :: (endpointPts (g p) a ++ emitPtsT g f fa r)
   | f, fa, .cubic c1 c2 p a :: r => g c1 :: g c2 :: (endpointPts (g p) a ++ emitPtsT g f fa r)
-  | f, fa, .end_ true :: r => endpointPts f fa ++ emitPtsT g f fa r
+  | f, fa, .end_ true :: r => endpointPts (g f) fa ++ emitPtsT g f fa r
   | f, fa, .end_ false :: r => emitPtsT g f fa r
 
+/-- the transformed storage of a program = the storage of the transformed program
+(`builder::Transformed` in front of the same builder) -/
+theorem emitPtsT_eq (g : Pt S → Pt S) (f : Pt S) (fa : List S) (prog : Prog S) :
+    emitPtsT g f fa prog = emitPts (g f) fa (prog.map (mapCall g)) := by
+  induction prog generalizing f fa with
+  | nil => rfl
+  | cons c r ih =>
+    cases c with
+    | end_ cl => cases cl <;> simp [emitPtsT, emitPts, mapCall, ih]
+    | _ => simp [emitPtsT, emitPts, mapCall, ih]
+
+theorem emitVerbs_map (g : Pt S → Pt S) (prog : Prog S) :
+    emitVerbs (prog.map (mapCall g)) = emitVerbs prog := by
+  induction prog with
+  | nil => rfl
+  | cons c r ih =>
+    cases c with
+    | end_ cl => cases cl <;> simp [emitVerbs, mapCall, ih]
+    | _ => simp [emitVerbs, mapCall, ih]
+
+theorem attrsOk_map (g : Pt S → Pt S) (n : Nat) (prog : Prog S) :
+    attrsOk n (prog.map (mapCall g)) = attrsOk n prog := by
+  induction prog with
+  | nil => rfl
+  | cons c r ih => cases c <;> simp [attrsOk, mapCall, ih]
+
+theorem wellNestedFrom_map (g : Pt S → Pt S) (b : Bool) (prog : Prog S) :
+    wellNestedFrom b (prog.map (mapCall g)) = wellNestedFrom b prog := by
+  induction prog generalizing b with
+  | nil => rfl
+  | cons c r ih => cases b <;> cases c <;> simp [wellNestedFrom, mapCall, ih]
+
+/-- outside a sub-path the builder's `first` / `first_attributes` are dead: a well-nested
+program overwrites them (`begin`) before `end(true)` reads them -/
+theorem emitPts_first_irrelevant (f f' : Pt S) (fa fa' : List S) (prog : Prog S)
+    (hn : wellNestedFrom false prog = true) : emitPts f fa prog = emitPts f' fa' prog := by
+  cases prog with
+  | nil => rfl
+  | cons c r => cases c <;> simp_all [wellNestedFrom, emitPts]
+
 theorem modify_at_length (g : Pt S → Pt S) (pre : List (Pt S)) (x : Pt S) (r : List (Pt S)) :
-    applyAt g (pre ++ x :: r) pre.length = pre ++ g x :: r := by
-  induction pre with
-  | nil => simp [applyAt]
-  | cons a t ih => simpa [applyAt] using ih
+    applyAt g (pre ++ x :: r) pre.length = some (pre ++ g x :: r) := by
+  have h : (pre ++ x :: r).modify pre.length g = pre ++ g x :: r := by
+    induction pre with
+    | nil => simp
+    | cons a t ih => simpa using ih
+  simp [applyAt, h]
 
 theorem modify_at_length' (g : Pt S → Pt S) (pre : List (Pt S)) (x : Pt S) (r : List (Pt S))
-    (i : Nat) (h : i = pre.length) : applyAt g (pre ++ x :: r) i = pre ++ g x :: r := by
+    (i : Nat) (h : i = pre.length) : applyAt g (pre ++ x :: r) i = some (pre ++ g x :: r) := by
   subst h; exact modify_at_length g pre x r
 
+/-- a successful write is inside the storage and keeps its length -/
+theorem applyAt_some (g : Pt S → Pt S) (pts q : List (Pt S)) (i : Nat)
+    (h : applyAt g pts i = some q) : i < pts.length ∧ q.length = pts.length := by
+  unfold applyAt at h
+  split at h
+  · cases h; exact ⟨by assumption, by simp⟩
+  · cases h
+
+theorem applyEvent_length (g : Pt S → Pt S) (stride : Nat) (pts q : List (Pt S)) (e : Event Nat)
+    (h : applyEvent g stride pts e = some q) : q.length = pts.length := by
+  cases e with
+  | begin a => exact (applyAt_some g _ _ _ h).2
+  | line a b => exact (applyAt_some g _ _ _ h).2
+  | quad a c b =>
+    simp only [applyEvent] at h
+    cases h1 : applyAt g pts c with
+    | none => simp [h1] at h
+    | some q1 =>
+      simp only [h1, Option.bind_some] at h
+      rw [(applyAt_some g _ _ _ h).2, (applyAt_some g _ _ _ h1).2]
+  | cubic a c d b =>
+    simp only [applyEvent] at h
+    cases h1 : applyAt g pts c with
+    | none => simp [h1] at h
+    | some q1 =>
+      simp only [h1, Option.bind_some] at h
+      cases h2 : applyAt g q1 d with
+      | none => simp [h2] at h
+      | some q2 =>
+        simp only [h2, Option.bind_some] at h
+        rw [(applyAt_some g _ _ _ h).2, (applyAt_some g _ _ _ h2).2, (applyAt_some g _ _ _ h1).2]
+  | end_ l f cl =>
+    cases cl with
+    | true => exact (applyAt_some g _ _ _ h).2
+    | false => simp only [applyEvent] at h; cases h; rfl
+
+/-- if the whole walk succeeds, the write performed for every `End { close: true }` event —
+index `last + stride + 1` — is inside the storage -/
+theorem applyAll_close_in_bounds (g : Pt S → Pt S) (stride : Nat) (evs : List (Event Nat))
+    (pts q : List (Pt S)) (h : applyAll g stride evs pts = some q) :
+    q.length = pts.length ∧
+      ∀ last first, Event.end_ last first true ∈ evs → last + stride + 1 < pts.length := by
+  induction evs generalizing pts with
+  | nil => simp only [applyAll] at h; cases h; simp
+  | cons e r ih =>
+    simp only [applyAll] at h
+    cases h1 : applyEvent g stride pts e with
+    | none => simp [h1] at h
+    | some q1 =>
+      simp only [h1, Option.bind_some] at h
+      have hl := applyEvent_length g stride pts q1 e h1
+      obtain ⟨hq, hr⟩ := ih q1 h
+      refine ⟨by rw [hq, hl], ?_⟩
+      intro last first hm
+      rcases List.mem_cons.mp hm with he | hm'
+      · subst he
+        exact (applyAt_some g _ _ _ (by simpa [applyEvent] using h1)).1
+      · rw [← hl]; exact hr last first hm'
+
 /-- `apply_transform` on the storage of a program: the `IdIter` walk writes exactly the
-position slots (`emitPtsT`), whatever precedes and follows the program's storage. -/
+position slots and the copies stored by `end(true)` (`emitPtsT`), every index inside the storage
+(the result is `some`), whatever precedes and follows the program's storage. -/
 theorem applyGo_emit (g : Pt S → Pt S) (n : Nat) (prog : Prog S) (inSub : Bool) (f : Pt S)
     (fa : List S) (pre post : List (Pt S)) (cur first : Nat)
     (hn : wellNestedFrom inSub prog = true) (ha : attrsOk n prog = true) (hfa : fa.length = n)
     (hidx : if inSub then cur + (attribStride n + 1) = pre.length else cur = pre.length) :
-    (idIterGo (attribStride n + 1) (emitVerbs prog) cur first).foldl (applyEvent g)
+    applyAll g (attribStride n) (idIterGo (attribStride n + 1) (emitVerbs prog) cur first)
         (pre ++ (emitPts f fa prog ++ post))
-      = pre ++ (emitPtsT g f fa prog ++ post) := by
+      = some (pre ++ (emitPtsT g f fa prog ++ post)) := by
   induction prog generalizing inSub f fa pre cur first with
-  | nil => simp [emitVerbs, idIterGo, emitPts, emitPtsT]
+  | nil => simp [emitVerbs, idIterGo, emitPts, emitPtsT, applyAll]
   | cons c r ih =>
     cases inSub with
     | false =>
@@ -61,8 +166,8 @@ theorem applyGo_emit (g : Pt S → Pt S) (n : Nat) (prog : Prog S) (inSub : Bool
           simp [endpointPts_length, ha.1, hidx]
         have := ih true p a (pre ++ endpointPts (g p) a) cur cur
           (by simpa [wellNestedFrom] using hn) ha.2 ha.1 (by simp [hlen])
-        simp only [emitVerbs, idIterGo, List.foldl_cons, applyEvent, emitPts, emitPtsT, endpointPts,
-          List.cons_append, modify_at_length' g pre p _ cur hidx]
+        simp only [emitVerbs, idIterGo, applyAll, applyEvent, emitPts, emitPtsT, endpointPts,
+          List.cons_append, modify_at_length' g pre p _ cur hidx, Option.bind_some]
         simpa [endpointPts, List.append_assoc] using this
       | line p a => simp [wellNestedFrom] at hn
       | quad k p a => simp [wellNestedFrom] at hn
@@ -79,8 +184,8 @@ theorem applyGo_emit (g : Pt S → Pt S) (n : Nat) (prog : Prog S) (inSub : Bool
           simp [endpointPts_length, ha.1, hidx]
         have := ih true f fa (pre ++ endpointPts (g p) a) (cur + (attribStride n + 1)) first
           (by simpa [wellNestedFrom] using hn) ha.2 hfa (by simp [hlen])
-        simp only [emitVerbs, idIterGo, List.foldl_cons, applyEvent, emitPts, emitPtsT, endpointPts,
-          List.cons_append, modify_at_length' g pre p _ _ hidx]
+        simp only [emitVerbs, idIterGo, applyAll, applyEvent, emitPts, emitPtsT, endpointPts,
+          List.cons_append, modify_at_length' g pre p _ _ hidx, Option.bind_some]
         simpa [endpointPts, List.append_assoc] using this
       | quad k p a =>
         simp only [attrsOk, Bool.and_eq_true, beq_iff_eq] at ha
@@ -91,12 +196,12 @@ theorem applyGo_emit (g : Pt S → Pt S) (n : Nat) (prog : Prog S) (inSub : Bool
           (by simpa [wellNestedFrom] using hn) ha.2 hfa (by simp [hlen])
         have h2 : applyAt g (pre ++ g k :: p :: (packAttrs a ++ (emitPts f fa r ++ post)))
             (cur + (attribStride n + 1) + 1)
-            = (pre ++ [g k]) ++ g p :: (packAttrs a ++ (emitPts f fa r ++ post)) := by
+            = some ((pre ++ [g k]) ++ g p :: (packAttrs a ++ (emitPts f fa r ++ post))) := by
           have := modify_at_length' g (pre ++ [g k]) p (packAttrs a ++ (emitPts f fa r ++ post))
             (cur + (attribStride n + 1) + 1) (by simp [hidx])
           simpa [List.append_assoc] using this
-        simp only [emitVerbs, idIterGo, List.foldl_cons, applyEvent, emitPts, emitPtsT, endpointPts,
-          List.cons_append, List.append_assoc, modify_at_length' g pre k _ _ hidx]
+        simp only [emitVerbs, idIterGo, applyAll, applyEvent, emitPts, emitPtsT, endpointPts,
+          List.cons_append, List.append_assoc, modify_at_length' g pre k _ _ hidx, Option.bind_some]
         rw [h2]
         simpa [endpointPts, List.append_assoc] using this
       | cubic k1 k2 p a =>
@@ -109,127 +214,92 @@ theorem applyGo_emit (g : Pt S → Pt S) (n : Nat) (prog : Prog S) (inSub : Bool
           (by simpa [wellNestedFrom] using hn) ha.2 hfa (by simp [hlen])
         have h2 : applyAt g (pre ++ g k1 :: k2 :: p :: (packAttrs a ++ (emitPts f fa r ++ post)))
             (cur + (attribStride n + 1) + 1)
-            = (pre ++ [g k1]) ++ g k2 :: p :: (packAttrs a ++ (emitPts f fa r ++ post)) := by
+            = some ((pre ++ [g k1]) ++ g k2 :: p :: (packAttrs a ++ (emitPts f fa r ++ post))) := by
           have := modify_at_length' g (pre ++ [g k1]) k2 (p :: (packAttrs a ++ (emitPts f fa r ++ post)))
             (cur + (attribStride n + 1) + 1) (by simp [hidx])
           simpa [List.append_assoc] using this
         have h3 : applyAt g ((pre ++ [g k1]) ++ g k2 :: p :: (packAttrs a ++ (emitPts f fa r ++ post)))
             (cur + (attribStride n + 1) + 2)
-            = (pre ++ [g k1, g k2]) ++ g p :: (packAttrs a ++ (emitPts f fa r ++ post)) := by
+            = some ((pre ++ [g k1, g k2]) ++ g p :: (packAttrs a ++ (emitPts f fa r ++ post))) := by
           have := modify_at_length' g (pre ++ [g k1, g k2]) p (packAttrs a ++ (emitPts f fa r ++ post))
             (cur + (attribStride n + 1) + 2) (by simp [hidx])
           simpa [List.append_assoc] using this
-        simp only [emitVerbs, idIterGo, List.foldl_cons, applyEvent, emitPts, emitPtsT, endpointPts,
-          List.cons_append, List.append_assoc, modify_at_length' g pre k1 _ _ hidx]
-        rw [h2, h3]
+        simp only [emitVerbs, idIterGo, applyAll, applyEvent, emitPts, emitPtsT, endpointPts,
+          List.cons_append, List.append_assoc, modify_at_length' g pre k1 _ _ hidx, Option.bind_some]
+        rw [h2, Option.bind_some, h3]
         simpa [endpointPts, List.append_assoc] using this
       | end_ cl =>
         simp only [attrsOk] at ha
         cases cl with
         | true =>
-          have hlen : (pre ++ endpointPts f fa).length = cur + (attribStride n + 1) * 2 := by
+          -- the new write: `last + stride + 1` is the slot of the copy of `first`
+          have hlen : (pre ++ endpointPts (g f) fa).length = cur + (attribStride n + 1) * 2 := by
             simp [endpointPts_length, hfa]; omega
-          have := ih false f fa (pre ++ endpointPts f fa) (cur + (attribStride n + 1) * 2) first
+          have := ih false f fa (pre ++ endpointPts (g f) fa) (cur + (attribStride n + 1) * 2) first
             (by simpa [wellNestedFrom] using hn) ha hfa (by simp [hlen])
-          simp only [emitVerbs, idIterGo, List.foldl_cons, applyEvent, emitPts, emitPtsT]
-          simpa [List.append_assoc] using this
+          simp only [emitVerbs, idIterGo, applyAll, applyEvent, emitPts, emitPtsT, endpointPts,
+            List.cons_append, modify_at_length' g pre f _ (cur + attribStride n + 1) (by omega),
+            Option.bind_some]
+          simpa [endpointPts, List.append_assoc] using this
         | false =>
           have := ih false f fa pre (cur + (attribStride n + 1)) first
             (by simpa [wellNestedFrom] using hn) ha hfa (by simp [hidx])
-          simp only [emitVerbs, idIterGo, List.foldl_cons, applyEvent, emitPts, emitPtsT]
+          simp only [emitVerbs, idIterGo, applyAll, applyEvent, emitPts, emitPtsT, Option.bind_some]
           simpa using this
 
-/-- `Iter` over the transformed storage yields the events of the transformed program. -/
-theorem iterGo_emitT (g : Pt S → Pt S) (n : Nat) (prog : Prog S) (st : Option (Pt S × Pt S))
-    (f : Pt S) (fa : List S) (cur first : Pt S) (vs' : List Verb) (pts' : List (Pt S))
-    (hn : wellNestedFrom st.isSome prog = true) (ha : attrsOk n prog = true) (hfa : fa.length = n)
-    (hst : ∀ f0 c0, st = some (f0, c0) → f = f0 ∧ first = g f0 ∧ cur = g c0) :
-    ∃ c' f', iterGo (attribStride n) (emitVerbs prog ++ vs') (emitPtsT g f fa prog ++ pts') cur first
-      = (iterGo (attribStride n) vs' pts' c' f').map
-          ((specFrom st prog).map (mapEvent g) ++ ·) := by
-  induction prog generalizing st f fa cur first with
-  | nil => exact ⟨cur, first, by cases st <;> simp [emitVerbs, emitPtsT, specFrom]⟩
-  | cons c r ih =>
-    cases st with
-    | none =>
-      cases c with
-      | begin p a =>
-        simp only [attrsOk, Bool.and_eq_true, beq_iff_eq] at ha
-        obtain ⟨c', f', h⟩ := ih (some (p, p)) p a (g p) (g p) (by simpa [wellNestedFrom] using hn)
-          ha.2 ha.1 (by intro f0 c0 h; cases h; exact ⟨rfl, rfl, rfl⟩)
-        refine ⟨c', f', ?_⟩
-        simp only [emitVerbs, emitPtsT, List.cons_append, List.append_assoc, iterGo,
-          popSkip_endpoint n (g p) a _ ha.1, Option.bind_some, h, Option.map_map, specFrom,
-          List.map_cons, mapEvent]
-        rfl
-      | line p a => simp [wellNestedFrom] at hn
-      | quad c p a => simp [wellNestedFrom] at hn
-      | cubic c1 c2 p a => simp [wellNestedFrom] at hn
-      | end_ cl => simp [wellNestedFrom] at hn
-    | some fc =>
-      obtain ⟨f0, c0⟩ := fc
-      obtain ⟨rfl, rfl, rfl⟩ := hst f0 c0 rfl
-      cases c with
-      | begin p a => simp [wellNestedFrom] at hn
-      | line p a =>
-        simp only [attrsOk, Bool.and_eq_true, beq_iff_eq] at ha
-        obtain ⟨c', f', h⟩ := ih (some (f, p)) f fa (g p) (g f) (by simpa [wellNestedFrom] using hn)
-          ha.2 hfa (by intro f0 c0 h; cases h; exact ⟨rfl, rfl, rfl⟩)
-        refine ⟨c', f', ?_⟩
-        simp only [emitVerbs, emitPtsT, List.cons_append, List.append_assoc, iterGo,
-          popSkip_endpoint n (g p) a _ ha.1, Option.bind_some, h, Option.map_map, specFrom,
-          List.map_cons, mapEvent]
-        rfl
-      | quad k p a =>
-        simp only [attrsOk, Bool.and_eq_true, beq_iff_eq] at ha
-        obtain ⟨c', f', h⟩ := ih (some (f, p)) f fa (g p) (g f) (by simpa [wellNestedFrom] using hn)
-          ha.2 hfa (by intro f0 c0 h; cases h; exact ⟨rfl, rfl, rfl⟩)
-        refine ⟨c', f', ?_⟩
-        simp only [emitVerbs, emitPtsT, List.cons_append, List.append_assoc, iterGo, popPt,
-          popSkip_endpoint n (g p) a _ ha.1, Option.bind_some, h, Option.map_map, specFrom,
-          List.map_cons, mapEvent]
-        rfl
-      | cubic k1 k2 p a =>
-        simp only [attrsOk, Bool.and_eq_true, beq_iff_eq] at ha
-        obtain ⟨c', f', h⟩ := ih (some (f, p)) f fa (g p) (g f) (by simpa [wellNestedFrom] using hn)
-          ha.2 hfa (by intro f0 c0 h; cases h; exact ⟨rfl, rfl, rfl⟩)
-        refine ⟨c', f', ?_⟩
-        simp only [emitVerbs, emitPtsT, List.cons_append, List.append_assoc, iterGo, popPt,
-          popSkip_endpoint n (g p) a _ ha.1, Option.bind_some, h, Option.map_map, specFrom,
-          List.map_cons, mapEvent]
-        rfl
-      | end_ cl =>
-        simp only [attrsOk] at ha
-        cases cl with
-        | true =>
-          obtain ⟨c', f', h⟩ := ih none f fa (g c0) (g f) (by simpa [wellNestedFrom] using hn) ha hfa
-            (by intro f0 c0 h; cases h)
-          refine ⟨c', f', ?_⟩
-          simp only [emitVerbs, emitPtsT, List.cons_append, List.append_assoc, iterGo,
-            popSkip_endpoint n f fa _ hfa, Option.bind_some, h, Option.map_map, specFrom,
-            List.map_cons, mapEvent]
-          rfl
-        | false =>
-          obtain ⟨c', f', h⟩ := ih none f fa (g f) (g f) (by simpa [wellNestedFrom] using hn) ha hfa
-            (by intro f0 c0 h; cases h)
-          refine ⟨c', f', ?_⟩
-          simp only [emitVerbs, emitPtsT, List.cons_append, List.append_assoc, iterGo,
-            Option.bind_some, h, Option.map_map, specFrom, List.map_cons, mapEvent]
-          rfl
+/-- `apply_transform` on the storage `Path::builder_with_attributes(n)` holds for a valid
+program: no index of the walk is outside the storage, and the result is the storage of the
+transformed program — transforming after storing = storing through `builder::Transformed`, slot
+for slot (so EVERY view of the transformed path is the view of the transformed program). -/
+theorem stored_transform (g : Pt S → Pt S) (n : Nat) (prog : Prog S)
+    (hn : WellNested prog) (ha : attrsOk n prog = true) :
+    applyTransform g ⟨emitPts zeroPt (List.replicate n default) prog, emitVerbs prog, n⟩
+      = some ⟨emitPts zeroPt (List.replicate n default) (prog.map (mapCall g)),
+              emitVerbs (prog.map (mapCall g)), n⟩ := by
+  have hA := applyGo_emit g n prog false zeroPt (List.replicate n default) [] [] 0 0 hn ha
+    (by simp) (by simp)
+  simp only [List.nil_append, List.append_nil] at hA
+  have hirr := emitPts_first_irrelevant (g zeroPt) zeroPt (List.replicate n default)
+    (List.replicate n default) (prog.map (mapCall g)) (by rw [wellNestedFrom_map]; exact hn)
+  simp only [applyTransform, PathData.idIter, hA, Option.map_some, emitPtsT_eq, hirr, emitVerbs_map]
 
 /-- `path.transformed(g).iter()` on the path stored from a valid program = the transformed
-events of the program; no read outside the storage. -/
+events of the program; no read or write outside the storage. -/
 theorem stored_transform_iter (g : Pt S → Pt S) (n : Nat) (prog : Prog S)
     (hn : WellNested prog) (ha : attrsOk n prog = true) :
     (applyTransform g
-        ⟨emitPts zeroPt (List.replicate n default) prog, emitVerbs prog, n⟩).iter
+        ⟨emitPts zeroPt (List.replicate n default) prog, emitVerbs prog, n⟩).bind PathData.iter
       = some ((specEvents prog).map (mapEvent g)) := by
-  have hA := applyGo_emit g n prog false zeroPt (List.replicate n default) [] [] 0 0 hn ha
-    (by simp) (by simp)
-  obtain ⟨c', f', hB⟩ := iterGo_emitT g n prog none zeroPt (List.replicate n default) zeroPt zeroPt
-    [] [] hn ha (by simp) (by intro f0 c0 h; cases h)
-  simp only [List.nil_append, List.append_nil] at hA hB
-  simp only [applyTransform, PathData.iter, PathData.idIter, hA, hB, iterGo, Option.map_some,
-    List.append_nil, specEvents]
+  rw [stored_transform g n prog hn ha, Option.bind_some]
+  obtain ⟨c', f', hB⟩ := iterGo_emit n (prog.map (mapCall g)) none zeroPt (List.replicate n default)
+    zeroPt zeroPt [] [] (by rw [Option.isSome_none, wellNestedFrom_map]; exact hn) (by rw [attrsOk_map]; exact ha)
+    (by simp) (by intro f0 c0 h; cases h)
+  have hs := specFrom_map g none prog
+  simp only [Option.map_none] at hs
+  simp only [List.append_nil] at hB
+  simp only [PathData.iter, hB, iterGo, Option.map_some, List.append_nil, specEvents, hs]
+
+/-! ### the other views of the transformed program, in terms of the original's -/
+
+/-- a point map acting on an endpoint that carries its attributes (attributes untouched) -/
+def mapA (g : Pt S → Pt S) (q : APt S) : APt S := (g q.1, q.2)
+
+theorem aCall_map (g : Pt S → Pt S) (prog : Prog S) :
+    (prog.map (mapCall g)).map Path.aCall = (prog.map Path.aCall).map (mapCall (mapA g)) := by
+  induction prog with
+  | nil => rfl
+  | cons c r ih => cases c <;> simp_all [mapCall, Path.aCall, mapA, ctl]
+
+/-- the attribute-carrying events of the transformed program = the original's with every
+position transformed and every attribute list unchanged -/
+theorem specEvents_aCall_map (g : Pt S → Pt S) (prog : Prog S) :
+    specEvents ((prog.map (mapCall g)).map Path.aCall)
+      = (specEvents (prog.map Path.aCall)).map (mapEvent (mapA g)) := by
+  rw [aCall_map]
+  simpa [specEvents] using specFrom_map (mapA g) none (prog.map Path.aCall)
+
+theorem withPoints_fst_mapA (g : Pt S → Pt S) (e : Event (APt S)) :
+    withPoints Prod.fst (mapEvent (mapA g) e) = mapEvent g (withPoints Prod.fst e) := by
+  cases e <;> simp [withPoints, mapEvent, mapA]
 
 end Lyon.Adapt
